@@ -232,12 +232,16 @@ def run(ctx):
         ims = [mk(pool[k - 1], spacing=(1.0, 1.0)) for k in order]
         for im in ims:
             acc.push(im)
+        ctx.case(("acc", tuple(order)), nontrivial=len(order) > 1)
+        if acc.mean() is None or acc.std() is None:
+            ctx.violation("accumulator/no_value_after_pushes", {"order": order, "mean_is_none": acc.mean() is None,
+                                                                 "std_is_none": acc.std() is None})
+            continue
         mean = vals2d(acc.mean()).ravel()
         std = vals2d(acc.std()).ravel()
         emean = np.array([float(rat(x)) for x in st["out"][0]])
         estd = np.sqrt(np.array([float(rat(x)) for x in st["out"][1]]))
         d = max(quant.reldiff(mean, emean), float(np.max(np.abs(std - estd))))
-        ctx.case(("acc", tuple(order)), nontrivial=len(order) > 1)
         if d > 1e-12 or not meta_kept(ims[0], acc.mean()):
             ctx.violation("accumulator", {"order": order, "mean": mean.tolist(),
                                           "spec_mean": emean.tolist(), "std": std.tolist(),
@@ -258,6 +262,9 @@ def run(ctx):
             emean = np.array([float(rat(x)) for x in st["out"][0]])
             estd = np.sqrt(np.array([float(rat(x)) for x in st["out"][1]]))
             for rep in range(2):
+                if acc.std() is None or acc.mean() is None:
+                    bad = {"order": list(order), "after_pushes": n_ + 1, "read": rep + 1, "none_returned": True}
+                    break
                 std = vals2d(acc.std()).ravel()
                 mean = vals2d(acc.mean()).ravel()
                 if quant.reldiff(mean, emean) > 1e-12 or float(np.max(np.abs(std - estd))) > 1e-12:
